@@ -5,6 +5,7 @@ import (
 
 	"github.com/database64128/shadowsocks-go/conn"
 	"github.com/database64128/shadowsocks-go/netio"
+	"go.uber.org/zap"
 )
 
 // vfDialer is the inner stream client of the SS2022 client: it hands out a vfConn and records
@@ -107,7 +108,7 @@ func vfC01_Request() {
 	if seg {
 		sc.frags = 2
 	}
-	req, err := server.HandleStream(sc, nil)
+	req, err := server.HandleStream(sc, zap.NewNop())
 	vfAssert(err == nil, "genuine request accepted")
 	vfAssert(vfSameAddr(req.Addr, target), "server observes the dialed target")
 	vfAssert(req.Username == "", "single-user server reports no user name")
@@ -140,6 +141,123 @@ func vfC01_Request() {
 		vfAssert(got > w-inReq, "excess payload arrives within the expected chunks")
 		vfAssert(buf[w-inReq] == payload[w], "excess payload bytes arrive in order through the tunnel")
 		vfReach("excess")
+	}
+	vfReach("end")
+}
+
+// vfHandshake runs a genuine handshake (no initial payload, fixed IPv4 target) and returns the
+// client conn, the server conn and the two transports.
+func vfHandshake(psk []byte, seg bool) (cc netio.Conn, sconn netio.Conn, ct, st *vfConn) {
+	ccfg, err := NewClientCipherConfig(psk, nil, false)
+	vfAssert(err == nil, "client cipher config")
+	d := &vfDialer{}
+	client := (&StreamClientConfig{Name: "c", InnerClient: d, AllowSegmentedFixedLengthHeader: seg, CipherConfig: ccfg}).NewStreamClient()
+	target := conn.AddrFromIPAndPort(vfAddrFrom4([4]byte{1, 2, 3, 4}), 443)
+	cc, err = client.DialStream(context.Background(), target, nil)
+	vfAssert(err == nil && cc != nil, "dial succeeds")
+	ucfg, err := NewUserCipherConfig(psk, false)
+	vfAssert(err == nil, "server cipher config")
+	server := (&StreamServerConfig{AllowSegmentedFixedLengthHeader: seg, UserCipherConfig: ucfg}).NewStreamServer()
+	st = &vfConn{}
+	st.data = d.c.out
+	st.tag = "S"
+	req, err := server.HandleStream(st, zap.NewNop())
+	vfAssert(err == nil, "genuine request accepted")
+	vfAssert(len(req.Payload) == 0, "no initial payload")
+	sconn, err = req.Proceed()
+	vfAssert(err == nil, "proceed")
+	return cc, sconn, d.c, st
+}
+
+// vfC01_Tunnel: after the handshake, what one side writes (two writes of symbolic sizes, the first
+// one carrying the response header when the server writes) is read by the other side exactly,
+// in order, for symbolic read-buffer sizes and transport fragmentation; end-of-stream is reported
+// only after all bytes.   cases: key (16|32), dir (0: server->client, 1: client->server), path
+// (0: Write/Read, 1: writer side uses ReadFrom, 2: reader side uses WriteTo)
+func vfC01_Tunnel() {
+	keyLen := vfCase("key")
+	dir := vfCase("dir")
+	path := vfCase("path")
+	psk := vfBytes("psk", keyLen)
+	cc, sconn, ct, st := vfHandshake(psk, false)
+	// two=0: one write of symbolic size; two=1: a small concrete first write, then a symbolic one
+	n1, n2 := vfInt("n1"), 0
+	if vfCase("two") == 1 {
+		n1, n2 = 10, vfInt("n2")
+		vfAssume(n2 >= 1 && n2 <= 70000)
+	} else {
+		vfAssume(n1 >= 1 && n1 <= 70000)
+	}
+	b1, b2 := vfBytes("data1", n1), vfBytes("data2", n2)
+	wr, rd := sconn, cc
+	wt, rt := st, ct
+	if dir == 1 {
+		wr, rd = cc, sconn
+		wt, rt = ct, st
+	}
+	wt.out = nil
+	if path == 1 {
+		src := &vfReader{data: append(append([]byte{}, b1...), b2...), frags: 1, tag: "W"}
+		n, err := wr.(interface {
+			ReadFrom(r vfIOReader) (int64, error)
+		}).ReadFrom(src)
+		vfAssert(err == nil && n == int64(n1+n2), "ReadFrom consumed everything")
+	} else {
+		n, err := wr.Write(b1)
+		vfAssert(err == nil && n == n1, "first write reports all bytes")
+		if n2 > 0 {
+			n, err = wr.Write(b2)
+			vfAssert(err == nil && n == n2, "second write reports all bytes")
+		}
+	}
+	// hand the ciphertext to the peer's transport
+	rt.data = wt.out
+	rt.pos = 0
+	rt.reads = 0
+	rt.frags = vfCase("frags")
+	rt.tag = "R"
+	total := n1 + n2
+	w := vfInt("w")
+	vfAssume(w >= 0 && w < total)
+	var want byte
+	if w < n1 {
+		want = b1[w]
+	} else {
+		want = b2[w-n1]
+	}
+	if path == 2 {
+		sink := &vfConn{}
+		n, err := rd.(interface {
+			WriteTo(w vfIOWriter) (int64, error)
+		}).WriteTo(sink)
+		vfAssert(err == nil, "WriteTo ends cleanly at end of stream")
+		vfAssert(n == int64(total) && len(sink.out) == total, "WriteTo delivered every byte")
+		vfAssert(sink.out[w] == want, "bytes arrive unchanged and in order")
+		vfReach("end")
+		return
+	}
+	buf := make([]byte, 140000)
+	got := 0
+	for k := 0; k < 4 && got < total; k++ {
+		m := 70000
+		if k == 0 {
+			// the first read uses a buffer of symbolic size, later reads a large one
+			m = vfInt("readBuf")
+			vfAssume(m >= 1 && m <= 70000)
+		}
+		n, err := rd.Read(buf[got : got+m])
+		vfAssert(err == nil && n > 0 && n <= m, "read returns data without error")
+		got += n
+		vfAssert(got <= total, "never more bytes than were written")
+	}
+	if got > w {
+		vfAssert(buf[w] == want, "bytes arrive unchanged and in order")
+		vfReach("byte")
+	}
+	if got == total {
+		n, err := rd.Read(buf[:100])
+		vfAssert(n == 0 && err == vfEOF, "end of stream only after all bytes")
+		vfReach("eof")
 	}
 	vfReach("end")
 }
